@@ -65,7 +65,7 @@ static void scan(struct Heap *heap, int exact) {
     }
     if (n != total_present) {
         for (int h = 0; h < NH; h++) {
-            for (uint c = 0; c < MAXC; c++) {
+            for (uint c = 0; c <= min_valid[h] && c < MAXC; c++) { /* counters above min_valid were never pushed */
                 if (present[h][c] && stamp[h][c] != cur_stamp) {
                     if (c >= min_valid[h]) fail("a live entry is missing from the heap");
                     if (exact) fail("an entry of another handler disappeared");
@@ -133,7 +133,7 @@ int LLVMFuzzerTestOneInput(const uint8_t *data, size_t size) {
             int h = data[i++] % NH;
             scan(heap, 0); /* sync lazily discarded stale entries first */
             delete_events(heap, (void *) (uintptr_t) (h + 1));
-            for (uint c = 0; c < MAXC; c++) if (present[h][c]) { present[h][c] = 0; total_present--; }
+            for (uint c = 0; c <= min_valid[h] && c < MAXC; c++) if (present[h][c]) { present[h][c] = 0; total_present--; }
             min_valid[h] = 0;
             live[h] = 0;
             scan(heap, 1);
